@@ -380,11 +380,13 @@ RULE = ("master_loops: cases = (undirected network made of 1..4 connected "
         "order. partitions_*: cases = (connected graph, weights, a "
         "composition of N into contiguous chunks, Arenas options, source "
         "and target lists); exhaustive part = every connected labelled "
-        "graph on 2..4 nodes and 9 structured graphs each on 5, 6, 7 nodes "
+        "graph on 2..4 nodes (thorough: 2..5) and 9 structured graphs each "
+        "on 5, 6, 7 nodes "
         "x ALL 2^(N-1) compositions; random part = connected graphs of "
         "8..40 nodes with random compositions. Non-trivial = the composition "
         "has >= 2 chunks of unequal length. pool: connected / random graphs "
-        "of 5..40 nodes, optional source / target lists, nsi flag. "
+        "of 5..40 nodes, optional source / target lists, nsi flag, number "
+        "of batches = cpu_count() or 2..N+2. "
         "Non-trivial = >= 2 targets (>= 2 non-empty batches). Distinct = "
         "hash of the whole case.")
 ASSUMPTIONS = [
@@ -417,7 +419,16 @@ ASSUMPTIONS = [
     "bit for bit; n.s.i. Arenas and n.s.i. betweenness results are sums over "
     "chunks: rtol 1e-9 (summation order)",
     "multiprocessing: nsi_betweenness(parallelize=True) spawns "
-    "cpu_count() processes per call (~3 s): a handful of cases per run",
+    "cpu_count() processes per call (~3 s): a handful of cases per run; "
+    "the pool itself is real (spawned processes); only the NUMBER OF "
+    "BATCHES is varied, by pointing network.py's imported name cpu_count at "
+    "a number from the case for the one call (the pool size stays the "
+    "machine's)",
+    "the *_chunks_assemble_to_serial_result clauses play the master with "
+    "harness-made inputs (V from a dense numpy inverse, P = D_k^-1 A+ D_w) "
+    "and compare with the public serial measure at rtol 1e-9 of the "
+    "vector's magnitude; the *_chunks_concatenate / *_sum_to_full clauses "
+    "compare kernel with kernel on identical inputs",
 ]
 
 MEASURES = {
@@ -474,6 +485,23 @@ def _where(e):
     return "raised %s: %s at %s" % (type(e).__name__, str(e)[:200], where)
 
 
+def _no_exit(fn, *args, **kw):
+    """nsi_arenas_betweenness calls sys.exit() on a solver error: turn that
+    into an ordinary exception so that it is reported, not obeyed."""
+    try:
+        return fn(*args, **kw)
+    except SystemExit as e:
+        raise RuntimeError("library called sys.exit(%s)" % (e.code,)) from e
+
+
+def _scale(x):
+    """Magnitude of a result vector: the rounding noise of a quantity that
+    is analytically zero at one node is relative to the whole vector."""
+    x = np.asarray(x, dtype=float)
+    x = x[np.isfinite(x)]
+    return float(np.abs(x).max()) if x.size else 0.0
+
+
 def _expected_chunks(n, size):
     """The documented cut (network.py: 'determine in how many parts outer
     loop is split'), used for LABELS only."""
@@ -524,14 +552,14 @@ def oracle_master(case, rec):
     for m in names:
         tag, meth, kw = MEASURES[m]
         try:
-            serial[m] = getattr(make(3), meth)(**kw)
+            serial[m] = _no_exit(getattr(make(3), meth), **kw)
         except Exception as e:  # pylint: disable=broad-except
             # no serial result: nothing for the property to say
             rec.label("serial_raised_%s_%s" % (tag, type(e).__name__))
             return
         if sil != 3:
             ok, again = rec.call(tag + "_serial_at_case_silence_level",
-                                 lambda: getattr(make(sil), meth)(**kw))
+                                 _no_exit, getattr(make(sil), meth), **kw)
             if ok:
                 rec.close(again, serial[m],
                           tag + "_serial_independent_of_silence_level",
@@ -680,7 +708,8 @@ def oracle_partition(case, rec):
             if ok3 and n >= 2:
                 rec.close((got + 2 * (n - 1)) / (n - 1.0), pub,
                           "newman_chunks_assemble_to_serial_result",
-                          rtol=1e-9, detail="parts=%s" % parts)
+                          rtol=1e-9, atol=1e-9 * _scale(pub),
+                          detail="parts=%s" % parts)
 
     # ---- n.s.i. Newman kernel
     if "nsi_newman" in todo:
@@ -714,9 +743,13 @@ def oracle_partition(case, rec):
                                 add_local_ends=ends)
             if ok3:
                 ref = got + ((2.0 * w.sum() - k) * k if ends else 0.0)
+                # V comes from a dense inverse here, from sparse LU in the
+                # library: noise at nodes whose value is analytically zero
+                # is relative to the magnitude of the whole vector
                 rec.close(ref, pub,
                           "nsi_newman_chunks_assemble_to_serial_result",
-                          rtol=1e-9, detail="parts=%s ends=%s" % (parts, ends))
+                          rtol=1e-9, atol=1e-9 * _scale(pub),
+                          detail="parts=%s ends=%s" % (parts, ends))
 
     # ---- n.s.i. Arenas: Python-level chunk function, sum over the partition
     if "arenas" in todo:
@@ -758,12 +791,14 @@ def oracle_partition(case, rec):
                           rtol=1e-9, detail="parts=%s excl=%s mode=%s" % (
                               parts, excl, mode))
                 ok3, pub = rec.call(
-                    "nsi_arenas_public", net().nsi_arenas_betweenness,
+                    "nsi_arenas_public", _no_exit,
+                    net().nsi_arenas_betweenness,
                     exclude_neighbors=excl, stopping_mode=mode)
                 if ok3:
                     rec.close(tot / w, pub,
                               "nsi_arenas_chunks_assemble_to_serial_result",
-                              rtol=1e-9, detail="parts=%s excl=%s mode=%s" % (
+                              rtol=1e-9, atol=1e-9 * _scale(pub),
+                              detail="parts=%s excl=%s mode=%s" % (
                                   parts, excl, mode))
 
     # ---- n.s.i. betweenness kernel: sum over batches of the target list
@@ -828,9 +863,25 @@ def oracle_pool(case, rec):
                        sources=src, targets=tgt, nsi=nsi, parallelize=False)
     if not ok:
         return
-    ok, par = rec.call("nsi_betweenness_parallelize_call",
-                       net().nsi_betweenness, sources=src, targets=tgt,
-                       nsi=nsi, parallelize=True)
+    # number of batches the target list is split into: the machine's
+    # cpu_count() or, to vary the worker count, a number from the case that
+    # network.py's `cpu_count` name is pointed at for this one call
+    k = case.get("batches")
+    rec.label("batches=%s" % ("cpu_count" if k is None else
+                              "fewer_than_targets" if k < n_t else
+                              "at_least_targets"))
+    from pyunicorn.core import network as net_mod
+    if not hasattr(net_mod, "cpu_count"):
+        raise HarnessError("network.py no longer imports cpu_count")
+    saved = net_mod.cpu_count
+    try:
+        if k is not None:
+            net_mod.cpu_count = lambda: int(k)
+        ok, par = rec.call("nsi_betweenness_parallelize_call",
+                           net().nsi_betweenness, sources=src, targets=tgt,
+                           nsi=nsi, parallelize=True)
+    finally:
+        net_mod.cpu_count = saved
     if not ok:
         return
     rec.close(par, ser, "nsi_betweenness_parallelize_equals_serial",
@@ -908,8 +959,9 @@ def schedules():
         # two ticks out of three run nothing, so that a backlog builds up
         # which the third works off in a drawn order
         st.lists(st.one_of(st.just([]), st.just([]),
-                           st.lists(st.integers(0, 7), max_size=8)),
-                 max_size=20))
+                           st.lists(st.integers(0, 7), min_size=1,
+                                    max_size=8)),
+                 min_size=4, max_size=30))
     fixed = st.sampled_from(["eager", "lazy", "reverse"]).map(
         lambda k: {"kind": k})
     prio = st.permutations(list(range(6))).map(
@@ -927,8 +979,8 @@ def master_cases(draw):
         names = [m for m in names if MEASURES[m][0] != "nsi_arenas"] or \
             ["nsi_newman"]
     n = net["n"]
-    size = draw(st.one_of(st.sampled_from([2, 3, 3, 4, 4, 5, 6, 7, 8, 9]),
-                          st.sampled_from([2, 3, 3, 4, 4, 5, 6, 7, 8, 9]),
+    size = draw(st.one_of(st.sampled_from([3, 4, 2, 5, 6, 3, 7, 4, 8, 9]),
+                          st.sampled_from([3, 4, 2, 5, 6, 3, 7, 4, 8, 9]),
                           st.integers(2, n + 2)))
     case = dict(net)
     case.update({
@@ -1002,7 +1054,7 @@ def _all_connected(n):
 
 def enum_partitions(tier):
     graphs = []
-    for n in (2, 3, 4):
+    for n in (2, 3, 4) + ((5,) if tier == "thorough" else ()):
         for e in _all_connected(n):
             graphs.append((n, e))
     for n in (5, 6, 7):
@@ -1072,7 +1124,8 @@ def pool_cases(draw):
                 lambda k: k / 8.0), min_size=n, max_size=n)),
             "sources": draw(st.one_of(st.none(), subset)),
             "targets": draw(st.one_of(st.none(), st.none(), subset)),
-            "nsi": draw(st.sampled_from([True, True, False]))}
+            "nsi": draw(st.sampled_from([True, True, False])),
+            "batches": draw(st.one_of(st.none(), st.integers(2, n + 2)))}
 
 
 SUBCHECKS = [
